@@ -125,8 +125,8 @@ fn observe(r: &Rig, pos: u64) -> Result<Obs, String> {
             _ => None,
         })
         .collect();
-    // draw_to_term writes the line, then the filler of the last line (src/draw_target.rs:566-572);
-    // an empty rendering produces no line at all (style.rs:393)
+    // draw_to_term writes the line, then the filler of the last line (src/draw_target.rs:620-626);
+    // an empty rendering produces no line at all (style.rs:397)
     let line = match strs.len() {
         0 => String::new(),
         2 => strs[0].clone(),
